@@ -350,7 +350,41 @@ func TestMemoryAdaptive(t *testing.T) {
 		if thr := calc.CalculateAllowedTokens(1, 0); math.IsNaN(thr) || math.IsInf(thr, 0) || thr < 0 {
 			t.Fatalf("memory not retrieved: threshold %v", thr)
 		}
-		// through api.Entry: admitted per window = floor(threshold), both directions
+		// through api.Entry: admitted per window = floor(threshold), both directions. In half of the cases the rule arrives as a
+		// modification of a predecessor that differs from it in exactly ONE of the four adaptive fields.
+		if pre := rapid.IntRange(0, 7).Draw(t, "predecessorDiffersIn"); pre < 4 {
+			p := *r
+			switch pre {
+			case 0:
+				p.LowMemUsageThreshold++
+			case 1:
+				if p.HighMemUsageThreshold > 1 {
+					p.HighMemUsageThreshold--
+				} else {
+					p.LowMemUsageThreshold++
+				}
+			case 2:
+				if p.MemLowWaterMarkBytes > 1 {
+					p.MemLowWaterMarkBytes--
+				} else {
+					p.LowMemUsageThreshold++
+				}
+			case 3:
+				if p.MemHighWaterMarkBytes < total {
+					p.MemHighWaterMarkBytes++
+				} else if p.MemHighWaterMarkBytes-1 > p.MemLowWaterMarkBytes {
+					p.MemHighWaterMarkBytes--
+				} else {
+					p.LowMemUsageThreshold++
+				}
+			}
+			if flow.IsValidRule(&p) == nil {
+				if _, err := flow.LoadRules([]*flow.Rule{&p}); err != nil {
+					t.Fatal(err)
+				}
+				c.Class("rule-arrives-as-a-one-field-modification")
+			}
+		}
 		if _, err := flow.LoadRules([]*flow.Rule{r}); err != nil {
 			t.Fatal(err)
 		}
